@@ -116,8 +116,18 @@ def lck_capture(P, R, L, rule, entries, need):
             after = [s for s in src_blocks if s in b.reachable(r.target) ] if r.target is not None else []
             if before and after:
                 split.append("%s at line %s splits sources %s | %s" % (r.name, r.line, before, after))
+        actions = [cs for cs in b.calls() if cs.name == NEW_SNAPSHOT and not b.is_cleanup(cs.bb)] if ep == GET_SNAPSHOT else []
+        pts = src_blocks + [a.bb for a in actions]
+        for lk in [cs for cs in b.calls() if is_db_lock(cs) and not b.is_cleanup(cs.bb)]:
+            before = [s for s in pts if lk.bb in b.reachable(s) and s != lk.bb]
+            after = [s for s in pts if lk.target is not None and s in b.reachable(lk.target)]
+            if before and after:
+                split.append("a second lock() at line %s separates %s | %s" % (lk.line, before, after))
+        for a in actions:
+            if L.site_state(a) != "held":
+                split.append("new_snapshot is not called with the mutex held")
         R.check(rule, "%s|single-region" % ep, not split, where(b),
-                "all sources are captured in one held region (no unlocked_fair / wait between them)", "; ".join(split) or "no release point between source reads")
+                "all sources (and the snapshot registration) lie in one held region: no unlocked_fair / wait / second lock() between them", "; ".join(split) or "no release point between source reads")
 
 
 def ord8_publication(P, R, L, rule="ORD-8"):
@@ -438,7 +448,7 @@ def grd3_sequence_filter(P, R, L, rule="GRD-3"):
         b_pred = origin_pred_field("sequence_snapshot")
         edges = []
         for c in comparisons(b):
-            edges += c.edges_where("le", a_pred, b_pred)
+            edges += c.edges_where("le", a_pred, b_pred, exact=True)
         if kind == "next":
             targets = [(s[0], "%s:%s" % (b.file, s[2]["line"])) for s in field_stores(b, "is_valid", const=1)]
             what = "is_valid = true"
